@@ -164,7 +164,17 @@ fn snapshot(j: &J, oracle: bool, pools: &mut Pools) -> Option<J> {
     Some(json!({"kind": j.get("kind")?, "nb": j.get("nb")?, "vars": vars, "funcs": funcs}))
 }
 
+/// Events beyond these sizes are skipped (counted): TLC evaluates the normative recogniser and evaluator by recursion over
+/// sequences, which is quadratic in the length of the input - fine for the expressions tests usually contain.
+const MAX_SOURCE_CHARS: usize = 400;
+const MAX_TREE_NODES: usize = 160;
+
+fn tree_size(t: &NTree) -> usize {
+    1 + t.k.iter().map(tree_size).sum::<usize>()
+}
+
 pub struct Stats {
+    pub skipped_large: u64,
     pub builds: u64,
     pub evals: u64,
     pub skipped_numeric: u64,
@@ -173,7 +183,7 @@ pub struct Stats {
 }
 
 pub fn convert(input: &str, output: &str, primreq: &str, max_events: usize) -> Stats {
-    let mut st = Stats { builds: 0, evals: 0, skipped_numeric: 0, skipped_context: 0, bad: 0 };
+    let mut st = Stats { skipped_large: 0, builds: 0, evals: 0, skipped_numeric: 0, skipped_context: 0, bad: 0 };
     let mut pools = Pools::default();
     let mut out = std::io::BufWriter::new(std::fs::File::create(output).expect("trace file"));
     let mut seen: BTreeSet<String> = BTreeSet::new();
@@ -206,6 +216,10 @@ pub fn convert(input: &str, output: &str, primreq: &str, max_events: usize) -> S
         let done = match j["ev"].as_str() {
             Some("build") => (|| {
                 let src = from_cps(j.get("src")?);
+                if src.chars().count() > MAX_SOURCE_CHARS {
+                    st.skipped_large += 1;
+                    return Some(());
+                }
                 for w in src.split(|c: char| c.is_whitespace() || "*/%^(),;=!<>&|\"".contains(c)) {
                     for part in crate::record::candidate_words(w) {
                         if part.chars().any(|c| c.is_ascii_digit()) && part.chars().all(|c| c.is_ascii_digit() || ".eE+-".contains(c)) {
@@ -237,6 +251,10 @@ pub fn convert(input: &str, output: &str, primreq: &str, max_events: usize) -> S
                     return Some(());
                 }
                 let (tree, deficient) = raw_tree(j.get("tree")?)?;
+                if tree_size(&tree) > MAX_TREE_NODES {
+                    st.skipped_large += 1;
+                    return Some(());
+                }
                 let pre = snapshot(j.get("pre")?, true, &mut pools)?;
                 let post = snapshot(j.get("post")?, false, &mut pools)?;
                 let res = raw_result(j.get("res")?, |v| {
